@@ -74,12 +74,12 @@ fn two_chunk_exhaustive(l: &mut Local, data: &[u8], want: &Obs, nt: bool) {
                     Err(p) => l.violation("totality", sig(data, &hist), format!("generator panicked when fed as {}: {}", hist, p)),
                 }
                 if nt && fa != fb {
-                    l.nt(fnv64(data) ^ ((cut as u64) << 8) ^ (fa * 6 + fb));
+                    l.nt(fnv64(data) ^ ((cut as u64) << 8) ^ (fa * N_FORMS + fb));
                 }
             }
         }
     }
-    l.count("two_chunk_histories", (data.len() as u64 + 1) * 36);
+    l.count("two_chunk_histories", (data.len() as u64 + 1) * N_FORMS * N_FORMS);
 }
 
 /// random multi-chunk history with clones and mid-stream finalizations
@@ -234,7 +234,7 @@ pub fn run(o: &Opts) -> i32 {
     let mut streams: Vec<Stream> = Vec::new();
     // small payloads: every split point x every ordered pair of forms
     streams.push(
-        Stream::new("exhaustive-two-chunk-splits", o.n(48, 1500), move |i, rng: &mut Rng, l: &mut Local| {
+        Stream::new("exhaustive-two-chunk-splits", o.n(20, 1500), move |i, rng: &mut Rng, l: &mut Local| {
             let data = match i % 4 {
                 0 => bytes::gen_kind(rng, 0, rng.clone().urange(400, 700)),
                 1 => {
@@ -286,7 +286,7 @@ pub fn run(o: &Opts) -> i32 {
         o,
         rr,
         Report {
-            rule: "payloads from W1/W2 (0..96 KiB). For payloads <= 700 bytes: EVERY two-chunk split offset x every ordered pair of the six delivery forms (update, update_by_iter, update_by_byte, += &[u8], += &[u8;N], += u8). Otherwise random 1..40-chunk histories with clones (continued separately) and intermediate finalizations (which must equal the hash of the prefix and must not disturb the rest), plus hash_buf and hash_stream under short-read patterns around its 32 KiB buffer; with the hook, the same random histories after a zero prefix of 8..192 GiB (level-29/30 trigger words, totals exactly at / just below the 192 GiB limit) so that clones, delivery forms and intermediate finalizations are also observed at the largest block sizes. Every observation (input_size and four finalizers) is compared with oracle O1 over the payload (so a defect common to all delivery forms is not masked). evaluations = compared observations. Non-trivial = history mixes >= 2 delivery forms and the oracle performed >= 1 block-size elimination; distinct by (payload, history).".into(),
+            rule: "payloads from W1/W2 (0..96 KiB). For payloads <= 700 bytes: EVERY two-chunk split offset x every ordered pair of the eight delivery forms (update, update_by_iter with an exact-size iterator, with filter and with flat_map iterators whose size_hint is inexact, update_by_byte, += &[u8], += &[u8;N], += u8). Otherwise random 1..40-chunk histories with clones (continued separately) and intermediate finalizations (which must equal the hash of the prefix and must not disturb the rest), plus hash_buf and hash_stream under short-read patterns around its 32 KiB buffer; with the hook, the same random histories after a zero prefix of 8..192 GiB (level-29/30 trigger words, totals exactly at / just below the 192 GiB limit) so that clones, delivery forms and intermediate finalizations are also observed at the largest block sizes. Every observation (input_size and four finalizers) is compared with oracle O1 over the payload (so a defect common to all delivery forms is not masked). evaluations = compared observations. Non-trivial = history mixes >= 2 delivery forms and the oracle performed >= 1 block-size elimination; distinct by (payload, history).".into(),
             assumptions: vec!["oracle O1 as in C01 (re-calibrated this run)".into()],
             exhaustive: false,
             min_nontrivial: 5000 * o.scale_pct / 100,
